@@ -105,28 +105,28 @@ class FileBasedCollectionMetadata(CollectionMetadata):
         if color is not None:
             self._configparser["DEFAULT"]["color"] = color
         else:
-            del self._configparser["DEFAULT"]["color"]
+            self._configparser["DEFAULT"].pop("color", None)
         self._save("Set color.")
 
     def set_displayname(self, displayname):
         if displayname is not None:
             self._configparser["DEFAULT"]["displayname"] = displayname
         else:
-            del self._configparser["DEFAULT"]["displayname"]
+            self._configparser["DEFAULT"].pop("displayname", None)
         self._save("Set display name.")
 
     def set_description(self, description):
         if description is not None:
             self._configparser["DEFAULT"]["description"] = description
         else:
-            del self._configparser["DEFAULT"]["description"]
+            self._configparser["DEFAULT"].pop("description", None)
         self._save("Set description.")
 
     def set_comment(self, comment):
         if comment is not None:
             self._configparser["DEFAULT"]["comment"] = comment
         else:
-            del self._configparser["DEFAULT"]["comment"]
+            self._configparser["DEFAULT"].pop("comment", None)
         self._save("Set comment.")
 
     def set_type(self, store_type):
@@ -145,7 +145,7 @@ class FileBasedCollectionMetadata(CollectionMetadata):
         except configparser.DuplicateSectionError:
             pass
         if order is None:
-            del self._configparser["calendar"]["order"]
+            self._configparser["calendar"].pop("order", None)
         else:
             self._configparser["calendar"]["order"] = order
         self._save("Set calendar order.")
